@@ -6,4 +6,10 @@ EXTENDS Process, ProcessConsts, Json
 Produces(h) == \E i \in 1..Len(h) : h[i].a \in {"Main", "Solve", "SolveAgain"}
 Terminal == Len(hist) = MaxHist
 Emit == (Terminal /\ Produces(hist)) => PrintT(<< "BEH", ToJson([hist |-> hist]) >>)
+
+(* instances that mix models and solvers: only the histories in which both a model and a solver compute *)
+(* a result (the others are maximal behaviours of the solver-only / model-only instances)               *)
+Cross(h) == /\ \E i \in 1..Len(h) : h[i].a = "Main"
+            /\ \E i \in 1..Len(h) : h[i].a \in {"Solve", "SolveAgain"}
+EmitCross == (Terminal /\ Cross(hist)) => PrintT(<< "BEH", ToJson([hist |-> hist]) >>)
 =============================================================================
